@@ -1,5 +1,5 @@
 """property id -> rules, explanation of what is / is not decided"""
-from rules import r_coord, r_keyid, r_opcode, r_doaction, r_cancel, r_idle, r_loop, r_traverse, r_repeat, r_chv2, r_wait, r_macro, r_seq, r_override, r_reload, r_pipeline, r_dynmacro, r_vkey
+from rules import r_coord, r_keyid, r_opcode, r_doaction, r_cancel, r_idle, r_loop, r_traverse, r_repeat, r_chv2, r_wait, r_macro, r_seq, r_override, r_reload, r_pipeline, r_dynmacro, r_vkey, r_layers
 
 PROPS = {
     "C01": {
@@ -11,8 +11,9 @@ PROPS = {
         "not_decided": "bounded-time liveness over all histories; diff logic prev_keys/cur_keys; timeout arithmetic",
     },
     "C04": {
-        "rules": [r_coord.run, r_doaction.rule_state_push],
-        "explanation": "Narrow: decides the release half of layered remapping — every state a press creates is keyed on the "
+        "rules": [r_coord.run, r_doaction.rule_state_push, r_layers.rule_fill],
+        "explanation": "Narrow: (R-FILL) the default fill of unassigned layer positions is decided from block-unmapped-keys and the "
+                       "key only, never from the layer index, and position 0 is forced to NoOp; decides the release half of layered remapping — every state a press creates is keyed on the "
                        "coordinate (never the layer) and removed by Release at that coordinate (R-COORD); the key / layer / custom "
                        "arms of do_action push their state on every path (R-STATE-PUSH).",
         "not_decided": "equality with the layered-keymap model: search order of held layers, output ordering, one event per "
@@ -36,7 +37,7 @@ PROPS = {
         "not_decided": "which key is 'the next one', timeout arithmetic, stacking semantics — run-time values",
     },
     "C11": {
-        "rules": [r_keyid.run_all],
+        "rules": [r_keyid.run_all, r_layers.rule_mapped],
         "level": "proof",
         "explanation": "Decides: (a) OsCode and KeyCode have identical discriminant sets and are repr(u16) — the exact soundness "
                        "condition of every enum transmute in the analysed crates, which are enumerated; (b) each arm n of "
